@@ -37,6 +37,12 @@ def points(tier):
                 for hs in (0, 1):
                     extra.append({'mode': mode, 'workers': 1, 'hostname': hostname, 'hostnames': hostnames, 'port': 'P', 'ports': ports,
                                   'unix': False, 'files': True, 'hashseed': hs, 'wildcard': True})
+    # more acceptors than workers and the other way round (six clients one after the other on the one endpoint)
+    more = []
+    for mode in ('threaded', 'local', 'remote'):
+        for acc, wrk in ((2, 1), (1, 2), (3, 2)):
+            more.append({'mode': mode, 'workers': wrk, 'acceptors': acc, 'probes': 6, 'hostname': '127.0.0.1', 'hostnames': [],
+                         'port': 0, 'ports': [], 'unix': False, 'files': True, 'hashseed': 0})
     if tier == 'quick':
         extra = [p for i, p in enumerate(extra) if p.get('wildcard') and (p['hashseed'] == 0 and (bool(p['ports']) == (p['mode'] != 'local'))) or not p.get('wildcard') and p['files'] and (i // 2) % 3 == ['threaded', 'local', 'remote'].index(p['mode'])]
     if tier == 'quick':
@@ -51,7 +57,7 @@ def points(tier):
                 if p['hashseed'] in (0, 1):
                     sel.append(p)
         out = sel
-    return out + extra
+    return out + extra + more
 
 
 def judge(pt, r):
